@@ -7,16 +7,23 @@ package pool
 // bytespool is a dependency: these two contracts are assumptions about it
 // (size classes, no zeroing, distinctness of live buffers).
 
+// Ghost attributes of buffers: "released" (handed back to the pool; every buffer a function receives is
+// assumed live on entry) and "pooled" (obtained from the pool rather than allocated).
+//@ attr released initially-false
+//@ attr pooled
+
 //@ func GetBuf(size int) (b Buffer)
 //@   trusted
 //@   requires [C01:nonneg] 0 <= size
 //@   modifies nothing
 //@   ensures len(b) == size && cap(b) >= size && fresh(b) && rootObj(b)
+//@   ensures attr(pooled, b)
 
 //@ func ReleaseBuf(b Buffer)
 //@   trusted
 //@   requires [C01,C20:nonnil] b != nil
 //@   modifies nothing
+//@   ensures attr(released, b)
 
 //@ func CopyBuf(b []byte) (bb Buffer)
 //@   props C01 C20
